@@ -4,7 +4,7 @@ from __future__ import annotations
 from hypothesis import strategies as st
 
 from vlib.core import FAIL, OK, Check
-from vlib.vtsched import clock_of, enc_abs, enc_rel, guarded, make
+from vlib.vtsched import clock_of, enc_abs, enc_rel, escaped, guarded, make
 
 PROPERTY_ID = "C29"
 LEVEL = "exploration"
@@ -99,7 +99,9 @@ def _run(case):
         if status == "hang":
             return FAIL(f"hang|{kind}.{what}", f"{what}() did not return within the watchdog; round {ri} of case={case}", classes=cls)
         if status == "exc":
-            raise val  # library frames innermost -> reported by the runner as escaped:<Type>@<where>
+            if not isinstance(val, Exception):
+                raise val
+            return escaped(val, f"{kind}.{what}", f"round {ri} of case={case}", cls)
         for a in counts:
             c, w = counts[a], want[a]
             if c > w:
